@@ -1012,6 +1012,8 @@ func c05Crash(c *Ctx, idx int) CaseResult {
 					switch e.Kind {
 					case "begin":
 						cur[e.Tag]++
+					case "end":
+						cur["ended:"+e.Tag]++
 					case "write":
 						begunBefore = append(begunBefore, snap())
 					}
@@ -1032,8 +1034,12 @@ func c05Crash(c *Ctx, idx int) CaseResult {
 						vs = append(vs, ev.V("C05", "recovered/budget-ignores-durable-attempts", "", "action %s (Retries %d) had %d durable attempts at crash point %d, yet it was invoked %d more times after the restart", tag, R, nAtt, k, m))
 					}
 					if k < len(begunBefore) {
-						if b := begunBefore[k][tag]; b+m > R+2 {
-							vs = append(vs, ev.V("C05", "recovered/too-many-calls", "", "action %s (Retries %d) was invoked %d times before crash point %d (of which %d attempts were durable) and %d times after the restart: more than Retries+1 plus the one call in flight at the crash", tag, R, b, k, nAtt, m))
+						// a crash right after write k: b calls had begun, inflight of them had not returned yet (only
+						// those may legitimately be made again)
+						b := begunBefore[k][tag]
+						inflight := b - begunBefore[k]["ended:"+tag]
+						if b+m > R+1+inflight {
+							vs = append(vs, ev.V("C05", "recovered/too-many-calls", "", "action %s (Retries %d) had been invoked %d times (%d still in flight, %d attempts durable) when the process died right after write %d, and was invoked %d more times after the restart: more than Retries+1 calls", tag, R, b, inflight, nAtt, k, m))
 						}
 					}
 					if (fo.Status == spec.Completed || fo.Status == spec.Failed) && len(fo.Attempts) != nAtt+m {
